@@ -75,3 +75,23 @@ Fixpoint core_failures_from (i : N) (cs : list case) : list N :=
   | c :: r => if check_core c then core_failures_from (i + 1) r else i :: core_failures_from (i + 1) r
   end.
 Definition core_failures (cs : list case) : list N := core_failures_from 0 cs.
+
+(** values only (programs with cycles AND unordered groups: which callees of a group are
+    repaired before a sibling reports a change depends on task scheduling, so the multiset
+    of executions is not a function of the history there) *)
+Fixpoint values_diff (i : N) (m r : list opres) : option N :=
+  match m, r with
+  | [], [] => None
+  | x :: m', y :: r' => if rout_eqb (r_out x) (r_out y) then values_diff (i + 1) m' r' else Some i
+  | _, _ => Some i
+  end.
+Definition check_values (c : case) : bool :=
+  match c with
+  | mkCase p ops real => match values_diff 0 (run_history p init_state ops) real with None => true | Some _ => false end
+  end.
+Fixpoint value_failures_from (i : N) (cs : list case) : list N :=
+  match cs with
+  | [] => []
+  | c :: r => if check_values c then value_failures_from (i + 1) r else i :: value_failures_from (i + 1) r
+  end.
+Definition value_failures (cs : list case) : list N := value_failures_from 0 cs.
